@@ -27,6 +27,9 @@ import (
 //	                of the first scan are still what they were after the second one ran; the
 //	                caller then writes into every object of the second scan (they are the
 //	                caller's), and the third scan is the one the standard oracle judges
+//	caller-appends  the consumer keeps a copy of every object as it is returned and then
+//	                appends a tag (and a node / a member) to the returned object itself: the
+//	                objects are the caller's, growing one must not reach into the next
 //	reader-*        the usual calls, but the io.Reader hands the stream over in
 //	                pieces of at most 1 / 7 bytes, or returns io.EOF together
 //	                with the last bytes (all allowed by the io.Reader contract)
@@ -149,6 +152,23 @@ func scanMode(r *kit.Run, data []byte, procs int, mode string, want *osmpbf.Head
 			}
 		}
 		header("asked after the scan", true)
+	case "caller-appends":
+		res.Header, res.HeaderErr = s.Header()
+		for s.Scan() {
+			o := s.Object()
+			res.Objects = append(res.Objects, kit.DeepCopy(o).(osm.Object))
+			switch x := o.(type) {
+			case *osm.Node:
+				x.Tags = append(x.Tags, osm.Tag{Key: "appended", Value: "by the caller"})
+			case *osm.Way:
+				x.Tags = append(x.Tags, osm.Tag{Key: "appended", Value: "by the caller"})
+				x.Nodes = append(x.Nodes, osm.WayNode{ID: -7})
+			case *osm.Relation:
+				x.Tags = append(x.Tags, osm.Tag{Key: "appended", Value: "by the caller"})
+				x.Members = append(x.Members, osm.Member{Type: osm.TypeNode, Ref: -7, Role: "appended"})
+			}
+		}
+		res.Err = s.Err()
 	case "reader-1-byte", "reader-7-bytes", "reader-eof-with-data", "three-scans":
 		res.Header, res.HeaderErr = s.Header()
 		for s.Scan() {
